@@ -1,6 +1,6 @@
 //! C18: replay of List.tla behaviours on real NumbatList handles (G), and recording of random
 //! operation sequences for validation by Trace_List.tla (J).
-use crate::util::*;
+use nvh::util::*;
 use numbat::list::NumbatList;
 use serde_json::{json, Value as J};
 
@@ -104,7 +104,7 @@ fn strip_exp(exp: &J) -> J {
 /// list-replay --nodes <file> --paths <file> --nh N [--level abstract|concrete]
 /// nodes: ndjson {id, op, h, g, x, res, hs:[null|{abs,cls,el,view,rc}]}
 /// paths: ndjson [id, id, ...] (first id = initial state)
-pub fn replay(args: &[String]) -> i32 {
+fn replay(args: &[String]) -> i32 {
     let nodes = read_ndjson(arg(args, "--nodes").expect("--nodes"));
     let paths = read_ndjson(arg(args, "--paths").expect("--paths"));
     let nh = arg_u64(args, "--nh", 3) as usize;
@@ -200,7 +200,7 @@ pub fn replay(args: &[String]) -> i32 {
 
 /// list-record --seed S --events N --nh N --maxlen M --out file
 /// random operation sequence on real handles; one event per operation with the full observed state
-pub fn record(args: &[String]) -> i32 {
+fn record(args: &[String]) -> i32 {
     let seed = arg_u64(args, "--seed", 1);
     let n = arg_u64(args, "--events", 1000);
     let nh = arg_u64(args, "--nh", 3) as usize;
@@ -236,4 +236,8 @@ pub fn record(args: &[String]) -> i32 {
     }
     out.flush();
     0
+}
+
+fn main() {
+    nvh::main_dispatch(&[("list-replay", replay), ("list-record", record)]);
 }
